@@ -47,8 +47,62 @@ def handleES (args impl : List String) : Option (String × String) :=
       pure (m, p)
   | _ => none
 
+def parseFails : List String → Option (List Bool)
+  | [] => some []
+  | f :: r => do
+    let b ← bool? f
+    let rest ← parseFails r
+    pure (b :: rest)
+
+def countOf (x : Nat) (l : List Nat) : Nat := (l.filter (· == x)).length
+
+/-- `c09.esdq <retry> <batchsize> <nbatches> (<fail>)* | f <n> ids… c <n> ids… C <n> ids…`: the real elasticsearch output,
+    several batches, a dead-queue output that blocks on its first call. Model: every batch goes through `Retry.out` on the
+    all-fail / first-success oracle (one worker: batches in order). Oracle, on the observed result alone and
+    independent of order: every event of an exhausted batch reaches the dead queue exactly once and is committed
+    exactly once, by the dead queue alone; no other event reaches the dead queue; no nil event (id 0); every event
+    of a succeeding batch is committed exactly once by the main output. -/
+def handleESDQ (args impl : List String) : Option (String × String) :=
+  match args with
+  | rt :: bs :: _nb :: fs => do
+    let retry ← nat? rt
+    let bsize ← nat? bs
+    let fails ← parseFails fs
+    let batches : List (List Ev × Bool) := (List.range fails.length).zip fails |>.map fun (k, f) =>
+      ((List.range bsize).map (fun j => (⟨k * bsize + j + 1, 8, .regular⟩ : Ev)), f)
+    let results : List (List Nat × List Nat) := batches.map fun ((evs : List Ev), (f : Bool)) =>
+      let res := if f then out ⟨retry, true⟩ evs (List.replicate (retry + 3) false) (List.replicate (retry + 3) (.dur 1)) 0
+                 else out ⟨retry, true⟩ evs [true] [] 0
+      (failedIds res.log, if res.keep then evs.map Ev.id else [])
+    let mf := (results.map (·.1)).flatten
+    let mc := (results.map (·.2)).flatten
+    let enc (tag : String) (l : List Nat) := unwords [tag, encList toString l]
+    let m := unwords [enc "f" mf, enc "c" mc, enc "C" mf]
+    let exhausted : List Nat := ((batches.filter (·.2)).map (fun b => b.1.map Ev.id)).flatten
+    let others : List Nat := ((batches.filter (fun b => !b.2)).map (fun b => b.1.map Ev.id)).flatten
+    let p := match impl with
+      | "f" :: r0 =>
+        match listOf nat? r0 with
+        | some (f, "c" :: r1) =>
+          match listOf nat? r1 with
+          | some (c, "C" :: r2) =>
+            match listOf nat? r2 with
+            | some (cq, []) =>
+              if exhausted.all (fun id => countOf id f == 1 && countOf id cq == 1 && countOf id c == 0)
+                && others.all (fun id => countOf id f == 0 && countOf id cq == 0 && countOf id c == 1)
+                && f.length == exhausted.length && cq.length == exhausted.length && c.length == others.length
+                && !f.contains 0 && !c.contains 0
+              then "ok" else "fail"
+            | _ => "bad-impl"
+          | _ => "bad-impl"
+        | _ => "bad-impl"
+      | _ => "fail"
+    pure (m, p)
+  | _ => none
+
 def handle (cmd : String) (args impl : List String) : Option (String × String) :=
   if cmd = "c09.es" then handleES args impl else
+  if cmd = "c09.esdq" then handleESDQ args impl else
   if cmd ≠ "c09.trace" then none else
   match args with
   | w :: cnt :: byt :: rt :: _ret :: dqm :: dqw :: dqc :: _ => do
